@@ -762,6 +762,7 @@ func runC10(c *Ctx) {
 	c10Literals(c, nlit)
 	c10Nested(c, nlit/2)
 	c10CoreMaps(c, boost["core-argument-maps"])
+	c10RunProvocations(c, boost)
 }
 
 func head(s string, n int) string {
@@ -827,9 +828,9 @@ func c10GenMap(rng *rand.Rand, depth int) *syntax.MapExp {
 	for i := 0; i < n; i++ {
 		var k string
 		if isStruct {
-			k = fmt.Sprintf("%c%s", 'a'+rng.Intn(26), strings.Repeat("x", rng.Intn(7)))
+			k = fmt.Sprintf("%c%s", []byte("abcABCxyzXYZ")[rng.Intn(12)], strings.Repeat([]string{"x", "X"}[rng.Intn(2)], rng.Intn(4)))
 		} else {
-			k = []string{"", "k", "key two", "q\"", "ü", "a\\b", "zz"}[rng.Intn(7)] + fmt.Sprint(rng.Intn(30))
+			k = []string{"", "k", "K", "key two", "KEY TWO", "Key Two", "q\"", "ü", "Ü", "a\\b", "zz", "zZ", "ZZ", "zz "}[rng.Intn(14)] + fmt.Sprint(rng.Intn(12))
 		}
 		m.Value[k] = c10GenExp(rng, depth)
 	}
